@@ -10,6 +10,8 @@ CONSTANTS
   Corruptions <- NoCorruption
   NT = 1
   FollowRetries = TRUE
+  FollowAppend = TRUE
+  ResyncChecksRound = TRUE
   MaxAgg = 0
   QCap = 1
   Linger = FALSE
